@@ -406,7 +406,14 @@ def cti_rules(F, R):
     if not okr:
         return
     S = {k: f for k, (f, _) in roles.items()}
+    # n: the number of summed values (len of the window queue) or the configured window length -- the same on a full window,
+    # which is all C06 speaks about; which one the code uses is reported to the caller (C12's offset clause needs the former)
     n = op('from_int', ('in', PN))
+    n_kind = 'window-length'
+    n_alt = op('from_int', ('len', ('in', QN)))
+    if any(x == n_alt for x in subterms(ret)) and not any(x == n for x in subterms(ret)):
+        n, n_kind = n_alt, 'count'
+    cti_rules.n_kind = n_kind
     vx = op('sub', op('mul', n, S['sxx']), op('powi', S['sx'], lit(2, 'i')))
     vy = op('sub', op('mul', n, S['syy']), op('powi', S['sy'], lit(2, 'i')))
     cov = op('sub', op('mul', n, S['sxy']), op('mul', S['sx'], S['sy']))
